@@ -568,3 +568,52 @@ Proof.
   intros root p n v Hwf Ha Hv. split; [|eapply update_path_tail_leads; eauto].
   destruct (nearest_spec _ _ _ _ _ _ _ Hv Ha) as [k [a [_ [_ [_ [_ [_ [_ [_ [H _]]]]]]]]]]. exact H.
 Qed.
+
+(* ------------------------------------------------------------------ registrations over time *)
+
+Lemma reg_lookup_after : forall h reg s,
+  reg_lookup (reg_after reg h) s = last_registered h s (reg_lookup reg s).
+Proof.
+  induction h as [|[k b] r IH]; intros reg s; [reflexivity|].
+  change (reg_after reg ((k, b) :: r)) with (reg_after (register reg k b) r).
+  rewrite IH. reflexivity.
+Qed.
+
+Lemma regs_of_app : forall a b, regs_of (a ++ b) = regs_of a ++ regs_of b.
+Proof. intros. unfold regs_of. apply flat_map_app. Qed.
+
+Lemma reg_after_app : forall reg a b, reg_after reg (a ++ b) = reg_after (reg_after reg a) b.
+Proof. intros. unfold reg_after. apply fold_left_app. Qed.
+
+Lemma exec_app : forall a reg root b,
+  exec reg root (a ++ b) = exec reg root a ++ exec (reg_after reg (regs_of a)) root b.
+Proof.
+  induction a as [|o a IH]; intros reg root b; simpl; [reflexivity|].
+  destruct o; simpl; rewrite IH; reflexivity.
+Qed.
+
+Lemma get_backend_history : forall reg h url b,
+  get_backend (reg_after reg h) url = inr b <->
+  exists s, scheme_of url = Some s /\ last_registered h s (reg_lookup reg s) = Some b.
+Proof.
+  intros reg h url b. destruct (get_backend_spec (reg_after reg h) url) as [_ [_ H]]. rewrite H.
+  split; intros [s [Hs Hl]]; exists s; split; auto; [rewrite <- reg_lookup_after | rewrite reg_lookup_after]; exact Hl.
+Qed.
+
+Lemma last_registered_app : forall h s cur k b,
+  last_registered (h ++ [(k, b)]) s cur = if String.eqb k s then Some b else last_registered h s cur.
+Proof.
+  induction h as [|[k' b'] r IH]; intros s cur k b; simpl; [reflexivity|]. apply IH.
+Qed.
+
+Lemma exec_history : forall reg root pre post p n, wf_tree root -> addr root p = Some n ->
+  let reg' := reg_after reg (regs_of pre) in
+  exec reg root (pre ++ OCommit p :: post) =
+    exec reg root pre ++ Some (run reg' KCommit (commit_visits root p n)) :: exec reg' root post /\
+  forall rc, exec reg root (pre ++ OUpdate p rc :: post) =
+    exec reg root pre ++ Some (run reg' KUpdate (update_visits root p n rc)) :: exec reg' root post.
+Proof.
+  intros reg root pre post p n Hwf Ha reg'. split; [|intros rc]; rewrite exec_app; simpl; fold reg'.
+  - rewrite (commit_is_run _ _ _ _ Hwf Ha). reflexivity.
+  - rewrite (update_is_run _ _ _ _ _ Hwf Ha). reflexivity.
+Qed.
